@@ -479,8 +479,8 @@ theorem readSections_ub (cfg : Cfg) : ∀ (n : Nat) (bs : Bytes) (m : RawModule)
         exact ub_readSection cfg m bs u hrs
 
 /-- Every undefined operation `Model.Reader.read` can reach, on ANY byte string and configuration. -/
-theorem read_ub (cfg : Cfg) (bs : Bytes) (u : UB) (h : read cfg bs = .ub u) : Allowed cfg u := by
-  unfold read at h
+theorem read_ub (cfg : Cfg) (bs : Bytes) (u : UB) (h : Model.Reader.read cfg bs = .ub u) : Allowed cfg u := by
+  unfold Model.Reader.read at h
   split at h
   · rename_i rest hm
     exact readSections_ub cfg rest.length rest _ u (Nat.le_refl _) h
